@@ -265,7 +265,7 @@ func (a *A) outputSide() {
 		}
 		want, wantOK := computeInit(comp, upd)
 		if !wantOK {
-			bad = append(bad, "computeCRC32 is not updateCRC32(<constant>, bs): the parser-side initial value is unknown")
+			bad = append(bad, "computeCRC32 is neither updateCRC32(<constant>, bs) nor a loop entered with a constant accumulator: the parser-side initial value is unknown")
 		}
 		if len(stores) != 1 {
 			bad = append(bad, fmt.Sprintf("%d assignments to the CRC variable outside the callback (expected only the initialisation)", len(stores)))
@@ -564,6 +564,34 @@ func computeInit(comp, upd *ssa.Function) (uint64, bool) {
 		}
 		k = c
 		n++
+	}
+	if n == 0 {
+		// the fold written out in computeCRC32: the returned value is the loop's accumulator phi, entered with a constant (that the
+		// loop is updateCRC32's fold is the CRC proof's F5, joined into this property)
+		for _, rt := range ssau.Returns(comp) {
+			if len(rt.Results) != 1 {
+				return 0, false
+			}
+			phi, ok := rt.Results[0].(*ssa.Phi)
+			if !ok {
+				return 0, false
+			}
+			found := false
+			for i, e := range phi.Edges {
+				if phi.Block().Dominates(phi.Block().Preds[i]) {
+					continue
+				}
+				c, ok := constUint(e)
+				if !ok || (found && c != k) {
+					return 0, false
+				}
+				k, found = c, true
+			}
+			if !found {
+				return 0, false
+			}
+			n = 1
+		}
 	}
 	return k, n == 1
 }
